@@ -697,7 +697,9 @@ func runScenario(s scenario, spoolRoot string, lg *hx.Log, prog *hx.Log) {
 				return
 			}
 		case "settle": // everything handed so far has arrived or is counted, the spool is empty
-			if !poll(patience, func() bool { return accounted() && spoolEmpty() }) {
+			if !s.Spool {
+				time.Sleep(50 * time.Millisecond)
+			} else if !poll(patience, func() bool { return accounted() && spoolEmpty() }) {
 				fail("settle")
 				return
 			}
@@ -721,7 +723,8 @@ func runScenario(s scenario, spoolRoot string, lg *hx.Log, prog *hx.Log) {
 	atomic.StoreInt32(&e.paused, 0)
 	atomic.StoreInt64(&r.slowUs, 0)
 	// the endpoint stays up: wait until everything has arrived or is counted and the hooks are quiet
-	ok := poll(patience, func() bool { return r.online() && accounted() && spoolEmpty() })
+	// (without spool the lines queued for a connection that died are gone uncounted, by design: nothing to wait for)
+	ok := poll(patience, func() bool { return r.online() && (!s.Spool || accounted()) && spoolEmpty() })
 	if ok {
 		time.Sleep(30 * time.Millisecond)
 	}
